@@ -19,6 +19,7 @@
 (*                      the style); children of a node whose text            *)
 (*                      holds a field are spliced into the first field; a    *)
 (*                      field prints its placeholder                         *)
+(*   indent formatter   HAML / Pug / Slim: one line per element (IndentPrinted) *)
 (* Printed == the string expand(s, {'options': {'output.format': False,      *)
 (* 'output.selfClosingStyle': SelfClosingStyle}}) returns.                   *)
 EXTENDS AbbrConvert
@@ -63,42 +64,97 @@ MergeA(todo, acc) ==
          IF i = 0 THEN MergeA(Tail(todo), Append(acc, a))
          ELSE MergeA(Tail(todo), [acc EXCEPT ![i] = IF a.name = "class" THEN MergeValue(acc[i], a) ELSE MergeDecl(acc[i], a)])
 
-(* ----------------------------------------------------------- the formatter *)
-RECURSIVE Tokens(_)
-Tokens(vl) == IF vl = <<>> THEN "" ELSE Head(vl).s \o Tokens(Tail(vl))        \* a string as it is, a field as its placeholder
-PrintAttr(a) ==
-    IF ~Named(a) THEN ""
-    ELSE IF a.impl /\ a.vt = "raw" /\ ~Truthy(a) THEN ""                        \* should_output_attribute()
-    ELSE LET lq == IF a.vt = "expression" THEN "{" ELSE "\""
-             rq == IF a.vt = "expression" THEN "}" ELSE "\""
-             isBool == a.bool \/ LowerS(a.name) \in BooleanAttributes
-             val == IF Truthy(a) THEN Tokens(a.value) ELSE IF isBool THEN a.name ELSE ""     \* compactBoolean off; the caret prints nothing
-         IN " " \o a.name \o "=" \o lq \o val \o rq
-RECURSIVE PrintAttrs(_)
-PrintAttrs(as) == IF as = <<>> THEN "" ELSE PrintAttr(Head(as)) \o PrintAttrs(Tail(as))
-FirstField(vl) == IF \E i \in 1..Len(vl) : vl[i].f THEN CHOOSE i \in 1..Len(vl) : vl[i].f /\ \A j \in 1..(i - 1) : ~vl[j].f ELSE 0
-
-RECURSIVE PrintNodes(_, _), PrintNode(_, _)
-PrintNodes(items, parent) == IF items = <<>> THEN "" ELSE PrintNode(Head(items), parent) \o PrintNodes(Tail(items), parent)
+(* ------------------------------------------------ transform(): per node *)
+\* append() of merge_value() joins adjacent strings: normalise the item list the same way
+RECURSIVE JoinStrings(_)
+JoinStrings(vl) == IF Len(vl) < 2 THEN vl
+            ELSE IF ~vl[1].f /\ ~vl[2].f THEN JoinStrings(<<SItem(vl[1].s \o vl[2].s)>> \o SubSeq(vl, 3, Len(vl)))
+            ELSE <<vl[1]>> \o JoinStrings(Tail(vl))
+RECURSIVE TNodes(_, _)
 \* parent: the (resolved) name of the closest enclosing node, "" at the top level and below a text node
-PrintNode(n, parent) ==
+TNode(n, parent) ==
     LET hasAttrs == n.hasattrs /\ n.attrs # <<>>
         noName == n.name = NONE \/ n.name = ""
         lp == LowerS(parent)
         name == IF noName /\ hasAttrs
                 THEN (IF ElementMap(lp) # "" THEN ElementMap(lp) ELSE IF lp \in InlineElements THEN "span" ELSE "div")
                 ELSE IF noName THEN "" ELSE n.name
-        attrs == IF hasAttrs THEN MergeA(n.attrs, <<>>) ELSE <<>>
-        valTruthy == n.hasval /\ n.value # <<>>
-        kids == PrintNodes(n.kids, name)
+        merged == IF hasAttrs THEN MergeA(n.attrs, <<>>) ELSE <<>>
+    IN [n EXCEPT !.name = name, !.attrs = [i \in 1..Len(merged) |-> [merged[i] EXCEPT !.value = JoinStrings(@)]], !.kids = TNodes(n.kids, name)]
+TNodes(items, parent) == IF items = <<>> THEN <<>> ELSE <<TNode(Head(items), parent)>> \o TNodes(Tail(items), parent)
+Transformed == LET c == Converted IN IF c.kind = "ok" THEN TNodes(c.tree, "") ELSE <<>>
+
+(* ------------------------------------------------------ the HTML formatter *)
+RECURSIVE Tokens(_)
+Tokens(vl) == IF vl = <<>> THEN "" ELSE Head(vl).s \o Tokens(Tail(vl))        \* a string as it is, a field as its placeholder
+ShouldOutput(a) == ~a.impl \/ a.vt # "raw" \/ Truthy(a)                       \* should_output_attribute()
+IsBool(a) == a.bool \/ (a.name # NONE /\ LowerS(a.name) \in BooleanAttributes)
+LQ(a) == IF a.vt = "expression" THEN "{" ELSE "\""
+RQ(a) == IF a.vt = "expression" THEN "}" ELSE "\""
+PrintAttr(a) ==
+    IF ~Named(a) \/ ~ShouldOutput(a) THEN ""
+    ELSE LET val == IF Truthy(a) THEN Tokens(a.value) ELSE IF IsBool(a) THEN a.name ELSE ""     \* compactBoolean off; the caret prints nothing
+         IN " " \o a.name \o "=" \o LQ(a) \o val \o RQ(a)
+RECURSIVE PrintAttrs(_)
+PrintAttrs(as) == IF as = <<>> THEN "" ELSE PrintAttr(Head(as)) \o PrintAttrs(Tail(as))
+FirstField(vl) == IF \E i \in 1..Len(vl) : vl[i].f THEN CHOOSE i \in 1..Len(vl) : vl[i].f /\ \A j \in 1..(i - 1) : ~vl[j].f ELSE 0
+
+RECURSIVE PrintNodes(_), PrintNode(_)
+PrintNodes(items) == IF items = <<>> THEN "" ELSE PrintNode(Head(items)) \o PrintNodes(Tail(items))
+PrintNode(n) ==
+    LET valTruthy == n.hasval /\ n.value # <<>>
+        kids == PrintNodes(n.kids)
         ff == IF valTruthy /\ n.kids # <<>> THEN FirstField(n.value) ELSE 0
         body == IF ff # 0 THEN Tokens(SubSeq(n.value, 1, ff - 1)) \o kids \o Tokens(SubSeq(n.value, ff + 1, Len(n.value)))   \* push_snippet()
                 ELSE (IF valTruthy THEN Tokens(n.value) ELSE "") \o kids
-    IN IF name # ""
-       THEN "<" \o name \o PrintAttrs(attrs)
-            \o (IF n.sc /\ n.kids = <<>> /\ ~valTruthy THEN SelfCloseToken \o ">" ELSE ">" \o body \o "</" \o name \o ">")
-       ELSE IF ff # 0 THEN body                       \* a text node
-       ELSE IF valTruthy THEN body
+    IN IF n.name # ""
+       THEN "<" \o n.name \o PrintAttrs(n.attrs)
+            \o (IF n.sc /\ n.kids = <<>> /\ ~valTruthy THEN SelfCloseToken \o ">" ELSE ">" \o body \o "</" \o n.name \o ">")
+       ELSE IF ff # 0 \/ valTruthy THEN body         \* a text node
        ELSE ""                                        \* a node without name, attributes and text prints nothing (its children neither)
-Printed == LET c == Converted IN IF c.kind = "ok" THEN PrintNodes(c.tree, "") ELSE ""
+Printed == PrintNodes(Transformed)
+
+(* --------------------------------- the HAML / Pug / Slim formatter (indent_format.py) *)
+(* default options: formatting on, newline LF, indent TAB; text without line breaks (multi-line text: IndentFormat.tla) *)
+IOpt(syn) == CASE syn = "haml" -> [beforeName |-> "%", beforeAttr |-> "(", afterAttr |-> ")", glue |-> " ", boolVal |-> "true", selfClose |-> "/"]
+               [] syn = "pug"  -> [beforeName |-> "",  beforeAttr |-> "(", afterAttr |-> ")", glue |-> ", ", boolVal |-> "",
+                                   selfClose |-> IF SelfClosingStyle = "xml" THEN "/" ELSE ""]
+               [] syn = "slim" -> [beforeName |-> "",  beforeAttr |-> " ", afterAttr |-> "",  glue |-> " ", boolVal |-> "", selfClose |-> "/"]
+RECURSIVE Tabs(_)
+Tabs(k) == IF k <= 0 THEN "" ELSE "\t" \o Tabs(k - 1)
+\* re.sub(r'\s+', '.', t): every run of white space in a string token becomes one dot
+RECURSIVE DotWS(_, _)
+DotWS(x, inRun) == IF x = "" THEN ""
+                   ELSE IF IsSpace(SubSeq(x, 1, 1)) THEN (IF inRun THEN "" ELSE ".") \o DotWS(Tail(x), TRUE)
+                   ELSE SubSeq(x, 1, 1) \o DotWS(Tail(x), FALSE)
+RECURSIVE ClassTokens(_)
+ClassTokens(vl) == IF vl = <<>> THEN "" ELSE (IF Head(vl).f THEN Head(vl).s ELSE DotWS(Head(vl).s, FALSE)) \o ClassTokens(Tail(vl))
+IsPrimary(a) == a.name = "class" \/ a.name = "id"
+RECURSIVE Primary(_)
+Primary(as) == IF as = <<>> THEN ""
+               ELSE (IF ~Head(as).hasval THEN "" ELSE IF Head(as).name = "class" THEN "." \o ClassTokens(Head(as).value) ELSE "#" \o Tokens(Head(as).value))
+                    \o Primary(Tail(as))
+SecAttr(a, o) == (IF a.name = NONE THEN "" ELSE a.name)
+                 \o (IF IsBool(a) /\ ~Truthy(a) THEN (IF o.boolVal # "" THEN "=" \o o.boolVal ELSE "")      \* compactBoolean off
+                     ELSE "=" \o LQ(a) \o (IF Truthy(a) THEN Tokens(a.value) ELSE "") \o RQ(a))
+RECURSIVE SecList(_, _)
+SecList(as, o) == IF as = <<>> THEN "" ELSE SecAttr(Head(as), o) \o (IF Len(as) > 1 THEN o.glue ELSE "") \o SecList(Tail(as), o)
+RECURSIVE INodes(_, _, _, _, _), INode(_, _, _, _, _)
+\* top: the items are top-level nodes; level: out.level of the parent
+INode(n, index, top, level, o) ==
+    LET lvl == IF top THEN level ELSE level + 1
+        prim == SelectSeq(n.attrs, IsPrimary)
+        sec == SelectSeq(n.attrs, LAMBDA a : ~IsPrimary(a) /\ ShouldOutput(a))
+        snippet == n.name = "" /\ n.attrs = <<>>
+        nl == IF (top /\ index = 1) \/ snippet THEN "" ELSE "\n" \o Tabs(lvl)
+        head == IF n.name # "" /\ (n.name # "div" \/ prim = <<>>) THEN o.beforeName \o n.name ELSE ""
+        secs == IF sec = <<>> THEN "" ELSE o.beforeAttr \o SecList(sec, o) \o o.afterAttr
+        valTruthy == n.hasval /\ n.value # <<>>
+        tail == IF n.sc /\ ~valTruthy /\ n.kids = <<>> THEN o.selfClose
+                ELSE (IF ~valTruthy /\ n.kids # <<>> THEN ""                                   \* push_value(): nothing for a parent without text
+                      ELSE (IF n.name # "" \/ n.attrs # <<>> THEN " " ELSE "") \o (IF valTruthy THEN Tokens(n.value) ELSE ""))
+                     \o INodes(n.kids, 1, FALSE, lvl, o)
+    IN nl \o head \o Primary(prim) \o secs \o tail
+INodes(items, index, top, level, o) == IF items = <<>> THEN "" ELSE INode(Head(items), index, top, level, o) \o INodes(Tail(items), index + 1, top, level, o)
+IndentPrinted(syn) == INodes(Transformed, 1, TRUE, 0, IOpt(syn))
 =============================================================================
